@@ -17,6 +17,10 @@ TARGETS = {
     'Container.__init__': ({'params': {'initial_contents': [('initial_contents=None', lambda: NONE)],
                                        'name': [('', lambda: Other('name'))]}},
                            ['initial contents are added through _self_add (scanned separately)']),
+    'Container.__init__#contents': ({'params': {
+        'initial_contents': [(f"initial_contents=[({k}, q)]", (lambda k=k: ListV([Tup([Subst(k, 's'), UserStr('q')])])))
+                             for k in KINDS],
+        'name': [('', lambda: Other('name'))]}}, []),
     'Container._self_add': ({}, []),
     'Container._transfer': ({}, []),
     'Container.remove': ({'params': {'what': [('', lambda: Other('what'))]}}, []),
@@ -103,3 +107,51 @@ TARGETS.update({
                                                        'container': [('container', lambda: Cont('query')),
                                                                      ('plate', lambda: Obj('Plate'))]}), []),
 })
+
+
+# ------------------------------------------------------------------------------------------------ Recipe.bake
+def bake_variants():
+    """(label, make_self) for the operator branches of bake that print or compute amounts."""
+    from ..unitai import S, Tup, Contents, Bool
+
+    def recipe_for(operator, operands, dest, current):
+        def mk():
+            to = ListV([dest()])
+            frm = ListV([NONE])
+            step = Obj('RecipeStep', {'to': to, 'frm': frm, 'trash': Contents(Cont('trash')),
+                                      'substances_used': Obj('set'), 'objects_used': Obj('set'),
+                                      'instructions': Other('str'), 'operator': S(operator), 'operands': operands(),
+                                      'frm_slice': NONE, 'to_slice': NONE})
+            steps = ListV([step])
+            return Obj('Recipe', {'steps': steps, 'stages': Other('stages'), 'results': Obj('results', {'elem': current()}),
+                                  'used': Obj('set'), 'locked': Bool(False), 'current_stage': S('all')})
+        return mk
+    out = []
+    for k in KINDS:
+        out.append((f"dilute solvent={k}", recipe_for(
+            'dilute', lambda k=k: Tup([Subst('liquid', 'solute'), UserStr('concentration'), Subst(k, 'solvent'), NONE]),
+            lambda: Cont('dest'), lambda: Cont('current'))))
+        out.append((f"fill_to container solvent={k}", recipe_for(
+            'fill_to', lambda k=k: Tup([Subst(k, 'solvent'), UserStr('quantity')]),
+            lambda: Cont('dest'), lambda: Cont('current'))))
+        out.append((f"fill_to slice solvent={k}", recipe_for(
+            'fill_to', lambda k=k: Tup([Subst(k, 'solvent'), UserStr('quantity')]),
+            lambda: Obj('PlateSlicer', {'plate': Obj('Plate')}), lambda: Obj('Plate'))))
+    return out
+
+
+def scan_bake(ctx):
+    key = (id(ctx.model), 'Recipe.bake', 'bake')
+    if key in uscan._cache:
+        return uscan._cache[key]
+    from ..unitai import explore, Incomplete
+    fi = ctx.model.func('Recipe.bake')
+    sc = uscan.Scan('Recipe.bake')
+    try:
+        for label, mk in bake_variants():
+            R = explore(ctx.model, fi, lambda I, mk=mk: {'self': mk()}, {'strict_other': False})
+            sc.add(label, R)
+    except Incomplete as exc:
+        sc.incomplete = str(exc)
+    uscan._cache[key] = sc
+    return sc
